@@ -4,14 +4,64 @@ import json, subprocess, sys
 
 CHECKS = {
  # id: (technique, level text, level note, design ref, engine)
- "C01": ("property-based testing (proptest) with boundary-constructed generators + exact decimal midpoint oracle, all 8 feature configurations in one process",
-         "Generated-input search: millions of inputs constructed on and around f64 rounding boundaries (exact midpoints, continued-fraction closest approaches, cut-off positions, range ends, long tails), parsed in all 8 configurations and judged two-sidedly by an independent exact oracle. Exploration, not proof: the f64 input space cannot be enumerated, so cases are placed on the algorithms' decision boundaries.",
-         "Trusts the harness's own Nat arithmetic and midpoint oracle (self-tested every run against 16 820 golden vectors from the repo's own data, std's parser, and a second arithmetic formulation). x86_64 only.",
-         "DESIGN.md 2/C01", "mlv"),
- "C02": ("property-based testing (proptest) with boundary-constructed generators + exact decimal midpoint oracle; double-rounding traps; f32 boundary sweep in the thorough tier",
-         "Same engine as C01 for f32, plus the double-rounding trap family; thorough tier sweeps f32 rounding boundaries by enumeration.",
-         "Same trusted base as C01.",
-         "DESIGN.md 2/C02", "mlv"),
+ "C01": ("property-based testing (proptest, 16 seeded runners) with boundary-constructed generators + exact decimal-midpoint oracle over all 8 feature configurations; second engine: coverage-guided libFuzzer target fz_round (ASan) with the same oracle inside",
+         "Generated-input search: millions of inputs constructed on and around f64 rounding boundaries (exact midpoints, continued-fraction closest approaches, cut-off positions, seams, range ends, long tails), parsed in all 8 configurations and judged two-sidedly by an independent exact oracle. Exploration, not proof: the f64 input space cannot be enumerated, so cases are placed on the algorithms' decision boundaries.",
+         "Trusts the harness's own Nat arithmetic and midpoint oracle (self-tested every run against 16 820 golden vectors from the repository's own data, std's parser, and a second arithmetic formulation). x86_64 only.",
+         "DESIGN.md section 2, C01", "mlv+libfuzzer"),
+ "C02": ("property-based testing (proptest) with boundary-constructed generators + exact decimal-midpoint oracle; double-rounding traps; f32 boundary sweep by enumeration in the thorough tier",
+         "Same engine as C01 for f32 (f32 constants), plus the double-rounding trap family; the thorough tier enumerates f32 rounding boundaries.",
+         "Same trusted base as C01.", "DESIGN.md section 2, C02", "mlv"),
+ "C03": ("round-trip property: generated floats + enumerated f32 bit patterns, three renderings each (shortest, 9/17 digits, exact expansion), parse back in all configurations",
+         "Round-trip oracle parse(render(x)) == x; renderings validated by the exact oracle before use. f32 patterns enumerated (residue class in quick, all 2^31-2^23 in thorough); f64 sampled from structured classes.",
+         "std's formatter only proposes renderings (validated); exact expansions from the harness's Nat.", "DESIGN.md section 2, C03", "mlv"),
+ "C04": ("generated and grid-enumerated valid inputs under catch_unwind in two separately compiled builds (release; debug-assertions + overflow-checks + UB-precondition checks), process supervisor attributing aborts to a traced case",
+         "Exploration of the panic-freedom contract over a full length x exponent x pattern x layout grid plus generated families that maximise big-integer size, in both builds and all 8 configurations.",
+         "A panic site reachable only through Lemire's lo == u64::MAX fallback (a ~2^-73 coincidence) is not reached by generation.", "DESIGN.md section 2, C04", "mlv supervisor"),
+ "C05": ("differential testing: 8 separately compiled feature configurations linked into one process, bit comparison on generated boundary inputs",
+         "Differential oracle (no reference value needed) over the C01/C02 generator mixture for both formats.",
+         "32-bit-limb targets are a compile-time variant that cannot be executed in this x86_64 sandbox.", "DESIGN.md section 2, C05", "mlv"),
+ "C06": ("property-based testing with constructed long tails: deciding digit placed at chosen absolute positions (19-digit cut, MAX_DIGITS cut, chunk edges, 1e3..1e6), expectation by construction and by the exact oracle",
+         "Every case has >= 20 significant digits and sits on a rounding boundary; positions sweep every cut-off the code has.",
+         "Same oracle as C01.", "DESIGN.md section 2, C06", "mlv"),
+ "C07": ("property-based testing at the range ends: midpoints around 0 / min subnormal / min normal / MAX, zero significands, compensated and uncompensable extreme exponents; exact oracle with the overflow/underflow thresholds built in",
+         "Exploration concentrated on the IEEE thresholds and on exponent arithmetic at the i32 limits.",
+         "Same oracle as C01 (exponent arithmetic in i64).", "DESIGN.md section 2, C07", "mlv"),
+ "C08": ("coverage-guided fuzzing (libFuzzer target fz_bytes) under AddressSanitizer in two builds (debug assertions on / off) + proptest over hostile byte strings in release and debug-assertion builds under a process supervisor",
+         "Memory-safety contract observed through ASan, core's UB-precondition checks and abnormal process exits; outcome classes value / clean panic are both accepted.",
+         "UB invisible to ASan, the precondition checks and process exit status is not observed.", "DESIGN.md section 2, C08", "libfuzzer+mlv supervisor"),
+ "C09": ("metamorphic property-based testing: chains of inputs ordered by construction (re-verified by exact decimal comparison), parsed bits must be non-decreasing",
+         "Order-preservation checked along generated chains that straddle rounding boundaries, algorithm seams and layouts; the rounding oracle is not consulted.",
+         "Only generated pairs are compared; each side is separately covered by C01/C02.", "DESIGN.md section 2, C09", "mlv"),
+ "C10": ("metamorphic property-based testing: all re-splittings / zero paddings of one digit sequence must parse to identical bits",
+         "Groups of representations of one value (splits, leading fraction zeros, trailing integer zeros, appended fraction zeros) compared against the canonical member in all configurations.",
+         "Exponents stay clear of i32 saturation so value equality is exact (re-verified).", "DESIGN.md section 2, C10", "mlv"),
+ "C11": ("direct calls of the moderate stage on an enumerated table of continued-fraction closest approaches plus generated (w,q,t), judged by the exact oracle incl. the interval condition for truncated inputs",
+         "Constructed, not sampled: for each decimal exponent and binade the inputs a 64/128-bit approximation is most likely to misjudge; declines are accepted, definite answers must be right.",
+         "Domain: t=true implies 1 <= w <= u64::MAX-1 (caller-established).", "DESIGN.md section 2, C11", "mlv"),
+ "C12": ("model-based property testing of every big-integer operation against the harness's Nat, operands hovering around the 62-limb capacity, stack and heap back-ends, release and debug-assertion builds; libFuzzer target fz_vec under ASan",
+         "Exact-result / reported-overflow rule checked per operation; 'writing outside its buffer' observed by ASan and UB-precondition checks.",
+         "Operands are non-zero as the property quantifies; un-normalised operands get the representation-based failure rule.", "DESIGN.md section 2, C12", "mlv supervisor+libfuzzer"),
+ "C13": ("stateful model-based testing: generated operation histories interpreted against StackVec / HeapVec and a Vec<u64> reference, invariants after every step; stack poisoning; libFuzzer target fz_vec under ASan",
+         "Histories sized to reach capacity, shrink and regrow; rejected growth must leave contents unchanged.",
+         "Contents after a failed add_small/mul_small are unspecified.", "DESIGN.md section 2, C13", "mlv supervisor+libfuzzer"),
+ "C14": ("complete enumeration of every exposed power constant and on-demand power in each configuration, recomputed from its mathematical definition with the harness's Nat",
+         "Finite domain enumerated completely on every run (exhaustive: true): 651 x 128-bit Lemire entries, exponent formula, small integer/float tables, 5^135, Bellerophon tables, pow_fast_path, libm pow, integer powers via public routes.",
+         "Values are read from the compiled crate, not from source text; definitions re-derived from the generator scripts' closed forms.", "DESIGN.md section 2, C14", "mlv"),
+ "C15": ("counting global allocator around each parse_float call on generated big-integer-path inputs, with a positive control in the alloc configurations",
+         "Zero-allocation contract observed per call in the 4 configurations without alloc.",
+         "Allocation on a path no generated input takes is not observed.", "DESIGN.md section 2, C15", "mlv"),
+ "C16": ("differential property-based testing over iterator shapes, buffer addresses, call histories with stack poisoning, and 16 concurrent threads",
+         "Purity checked against the baseline slice-iterator call in all configurations.",
+         "The harness does not own the thread schedule: shared mutable state would show, a rare interleaving might not.", "DESIGN.md section 2, C16", "mlv"),
+ "C17": ("exhaustive enumeration of all 2^32 f32 bit patterns + structured grid and samples of f64 patterns against an independent IEEE-754 decode and an arithmetic confirmation",
+         "f32 exhaustive on every run; f64 structured grid (all exponents x special mantissas) plus a sample.",
+         "is_denormal(+-0) itself is unconstrained.", "DESIGN.md section 2, C17", "mlv"),
+ "C18": ("enumerated grid (every exponent in range x structured kept/dropped bit patterns) + random pairs against an exact integer reference rounding; mask helpers for all widths",
+         "The rounding primitive is called directly in all configurations; every grid point sits on a rounding decision.",
+         "Truncating variant above MAX: +inf and MAX both accepted.", "DESIGN.md section 2, C18", "mlv"),
+ "C19": ("property-based testing of the repository's own front-end copies (compiled from the repository sources) against a reference scanner + exact oracle; libFuzzer target fz_frontend under ASan; release and debug-assertion builds",
+         "Suffix identity, value, sign, specials, saturation and panic-freedom for grammar-derived, mutated and arbitrary byte strings; the copies are compared with each other where their grammars coincide.",
+         "Two correctness tools needing uncached crates are not executed.", "DESIGN.md section 2, C19", "mlv supervisor+libfuzzer"),
 }
 
 NOT_YET = {
@@ -49,7 +99,9 @@ def main():
         },
         "engines": [
             {"name": "mlv", "path": "harness/mlv", "serves_properties": sorted(CHECKS.keys()),
-             "kind_free_text": "Rust binary: 16 proptest TestRunners (fixed seeds from VERIF_SEED) / exhaustive sweeps over all 8 feature configurations linked side by side via shim crates; exact Nat-based rounding oracle; shrinking to replay files"},
+             "kind_free_text": "Rust binary: 16 proptest TestRunners (fixed seeds from VERIF_SEED) / exhaustive sweeps over all 8 feature configurations linked side by side via shim crates (harness/mlc); exact Nat-based rounding oracle; shrinking to replay files; supervisor mode runs release and dbgchk worker processes and attributes aborts"},
+            {"name": "libfuzzer", "path": "fuzz", "serves_properties": ["C01", "C08", "C12", "C13", "C19"],
+             "kind_free_text": "libFuzzer targets fz_bytes, fz_frontend, fz_vec, fz_round built on nightly with AddressSanitizer; coverage instrumentation only on the code under test; semantic oracles inside the targets; driven by fuzz/campaign.sh from the property's command"},
         ],
         "checks": checks,
         "not_applicable": na,
